@@ -17,9 +17,12 @@ correspondence run of `./check C07` / `./check C20` validates against `QueryHash
 * `C07_stale_store_refused`, `C07_invalidation_advances_generation`,
   `C07_result_computed_before_write_is_not_stored`: a result carrying the generation read before
   a write is refused once that write's invalidation ran, after any number of further operations;
+* schedule half at the level of the engine's steps: `Theorems/C07Conc.lean` (`C07_write_then_invalidate_is_fresh`: any
+  number of writers and cacheable searches, any interleaving; `C07_invalidate_then_write_goes_stale`: the reversed order);
 * `C07_clear_empties`: metadata updates, bulk loads and drift repairs (`clear`) leave nothing.
 -/
 import KyroModel.Lemmas.QCacheBound
+import KyroModel.Theorems.C07Conc
 import KyroModel.Lemmas.PrefixBound
 
 namespace KyroModel.C07
